@@ -505,6 +505,28 @@ def fmt(ctx: Ctx) -> List[Ob]:
                 ok = ok and norm(vk) == kv
             test_key = norm(vk)
             ok = ok and any(p_ and norm(a_) == f"{test_key} in {vmname}" for a_, p_ in path_conds(ctx, f, vms[0][0]))
+        elif len(vms) == 2:
+            # canonical form with the translation repeated in the renamed / not-renamed branch
+            ok = True
+            seen_br = set()
+            for n_, e_ in vms:
+                ts_ = cond_texts(path_conds(ctx, f, n_))
+                mapped = f"{kv} in {mapname}" in ts_
+                unmapped = f"not ({kv} in {mapname})" in ts_ or f"not {kv} in {mapname}" in ts_ or f"{kv} not in {mapname}" in ts_
+                if mapped == unmapped:
+                    ok = None
+                    break
+                seen_br.add(mapped)
+                dkv = sorted(norm(v_) for v_ in reaching_values(ctx, f, n_, e_["$$dk"])) if isinstance(e_["$$dk"], ast.Name) else [norm(e_["$$dk"])]
+                vkv = sorted(norm(v_) for v_ in reaching_values(ctx, f, n_, e_["$$vk"])) if isinstance(e_["$$vk"], ast.Name) else [norm(e_["$$vk"])]
+                want_dk = [f"{mapname}[{kv}]"] if mapped else [kv]
+                want_vk = want_dk if vm_key_is_mapped else [kv]
+                good = dkv == want_dk and vkv == want_vk and any(p_ and norm(a_) == f"{norm(e_['$$vk'])} in {vmname}" for a_, p_ in path_conds(ctx, f, n_))
+                if not good:
+                    ok = False
+                    break
+            if ok and seen_br != {True, False}:
+                ok = None
         elif not vms and not any(vmname in norm(x) for x in ast.walk(lp) if isinstance(x, ast.Subscript)):
             ok = False
         O(["C05", "C12"], f, f"{q}: values are translated through value_map under the long key", ok,
